@@ -20,9 +20,19 @@ def rig_par():
 
 
 def res_obj(name):
+    """rig's own resource sentinels by name; a user's own resource is named
+    by VALUE (a string put together at run time, a tuple): every place that
+    mentions it - machine, vertices, constraints - holds an equal key, not
+    the same object."""
     par = rig_par()
-    return {"Cores": par.Cores, "SDRAM": par.SDRAM, "SRAM": par.SRAM}.get(
-        name, name)
+    std = {"Cores": par.Cores, "SDRAM": par.SDRAM, "SRAM": par.SRAM}
+    if name in std:
+        return std[name]
+    if isinstance(name, str):
+        return (name + " ")[:-1]
+    if isinstance(name, (tuple, list)):
+        return tuple(list(name))
+    return name
 
 
 def build_machine(m):
